@@ -312,22 +312,24 @@ def resetSasl (cfg : Cfg) (s : St) : St :=
   { s with saslAuth := false, dec := none, saslNext := next, saslCur := none,
            wanted := if next.isEmpty then s.wanted else (if s.wanted.contains sSasl then s.wanted else s.wanted ++ [sSasl]) }
 
-/-- Irc._queueConnectMessages (not a zombie) -/
-def queueConnectMessages (cfg : Cfg) (s : St) : St :=
-  let s := sendMsg .capLs s
-  let s := if cfg.password.isEmpty then s else sendMsg (.pass cfg.password) s
-  let s := sendMsg (.nick s.nick) s
-  let s := { s with tried := s.tried ++ [s.nick] }     -- the nick we start with counts as tried
-  let s := sendMsg (.user cfg.ident cfg.user) s
-  (transition Gen.Conn.toInitMessagesSent (some Gen.Conn.guardInitMessagesSent) s).st
+/-- the messages Irc._queueConnectMessages / sendAuthenticationMessages put on the fast queue -/
+def connectMsgs (cfg : Cfg) (nick : Str) : List Out :=
+  [.capLs] ++ (if cfg.password.isEmpty then [] else [.pass cfg.password]) ++ [.nick nick, .user cfg.ident cfg.user]
 
-/-- Irc.reset(): _setNonResettingVariables, IrcState.reset, queues emptied, connect messages queued -/
-def ircReset (cfg : Cfg) (s : St) : St :=
-  let s := { s with nick := cfg.nick, altNicks := cfg.alternates, tried := [], afterConnect := false }
-  let s := resetSasl cfg s
-  let s := { s with fsm := Gen.Conn.fsmReset, ls := [], req := [], ack := [], nak := [],
-                    fastq := [], slowq := [], epoch := s.epoch + 1, endCount := 0 }
-  queueConnectMessages cfg s
+/-- Irc._queueConnectMessages (not a zombie); the nick we start with counts as tried -/
+def queueConnectMessages (cfg : Cfg) (s : St) : St :=
+  (transition Gen.Conn.toInitMessagesSent (some Gen.Conn.guardInitMessagesSent)
+    { s with fastq := s.fastq ++ connectMsgs cfg s.nick, tried := s.tried ++ [s.nick] }).st
+
+/-- the fields Irc.reset() gives their start values: _setNonResettingVariables, IrcState.reset, queues -/
+def clearForReset (cfg : Cfg) (s : St) : St :=
+  { resetSasl cfg s with
+      nick := cfg.nick, altNicks := cfg.alternates, tried := [], afterConnect := false,
+      fsm := Gen.Conn.fsmReset, ls := [], req := [], ack := [], nak := [],
+      fastq := [], slowq := [], epoch := s.epoch + 1, endCount := 0 }
+
+/-- Irc.reset() -/
+def ircReset (cfg : Cfg) (s : St) : St := queueConnectMessages cfg (clearForReset cfg s)
 
 /-! ### driver: ServersMixin / SocketDriver -/
 
@@ -374,48 +376,56 @@ def applyStsPolicy (s : St) (server : Server) : Option (Server × St) :=
     | _ => none
   | _, _ => some (server, s)
 
+/-- ServersMixin._getNextServer: next entry of the server list (reloaded from the configuration when
+exhausted) with the stored STS policy applied.  `none` = assertion / exception. -/
+def getNextServer (cfg : Cfg) (s : St) : Option (Server × St) :=
+  match (if s.drv.servers.isEmpty then cfg.servers else s.drv.servers) with
+  | [] => none
+  | srv :: rest => applyStsPolicy { s with drv := { s.drv with servers := rest } } srv
+
+/-- the TLS decision of SocketDriver.reconnect / starttls: (wrap in TLS, verify the certificate) -/
+def tlsChoice (cfg : Cfg) (srv : Server) : Bool × Bool :=
+  let tls := cfg.ssl || srv.forced
+  (tls, tls && (if srv.forced && !cfg.certValidation then true else cfg.verifyCerts))
+
+/-- the connecting half of SocketDriver.reconnect once the server is known -/
+def connectTo (cfg : Cfg) (srv : Server) (s : St) : St :=
+  let srv' : Server := { srv with attempt := some (srv.attempt.getD s.drv.attempt) }
+  event (.connected srv' (tlsChoice cfg srv').1 (tlsChoice cfg srv').2)
+    { s with drv := { s.drv with current := srv', attempt := srv.attempt.getD s.drv.attempt, connected := true } }
+
 /-- SocketDriver.reconnect(wait=False) after the reset: pick the server, connect, maybe TLS -/
 def drvConnect (cfg : Cfg) (server : Option Server) (s : St) : St :=
-  let pick : Option (Server × St) :=
-    match server with
-    | some srv => some (srv, s)
-    | none =>
-      let list := if s.drv.servers.isEmpty then cfg.servers else s.drv.servers
-      match list with
-      | [] => none
-      | srv :: rest => applyStsPolicy { s with drv := { s.drv with servers := rest } } srv
-  match pick with
-  | none => s                                   -- assertion / exception: outside the modelled runs
-  | some (srv, s) =>
-    let srv' : Server := match srv.attempt with
-      | none => { srv with attempt := some s.drv.attempt }
-      | some _ => srv
-    let att : Int := match srv.attempt with
-      | none => s.drv.attempt
-      | some a => a
-    let tls := cfg.ssl || srv'.forced
-    let verify := if srv'.forced && !cfg.certValidation then true else cfg.verifyCerts
-    let s := { s with drv := { s.drv with current := srv', attempt := att, connected := true } }
-    event (.connected srv' tls (tls && verify)) s
+  match server with
+  | some srv => connectTo cfg srv s
+  | none =>
+    match getNextServer cfg s with
+    | none => s                                   -- assertion / exception: outside the modelled runs
+    | some (srv, s) => connectTo cfg srv s
+
+/-- the `if self.connected:` block of SocketDriver.reconnect: record the disconnection, close -/
+def drvDisconnect (s : St) : St :=
+  if s.drv.connected then
+    event .closed { s with db := { s.db with lastDisc := dictSet s.db.lastDisc s.drv.current.host s.now },
+                           drv := { s.drv with connected := false } }
+  else s
+
+/-- the `if wait:` block: the given server becomes the next one, reconnect is scheduled -/
+def drvSchedule (server : Option Server) (s : St) : St :=
+  { s with drv := { s.drv with scheduled := true,
+                               servers := (match server with | some srv => [srv] | none => []) ++ s.drv.servers } }
+
+/-- SocketDriver.reconnect(wait, server) (reset=True) -/
+def realReconnect (cfg : Cfg) (wait : Bool) (server : Option Server) (s : St) : St :=
+  let s1 := ircReset cfg (drvDisconnect { s with drv := { s.drv with attempt := s.drv.attempt + 1, scheduled := false } })
+  if wait then drvSchedule server s1 else drvConnect cfg server s1
 
 /-- `driver.reconnect(wait, server)` as seen from the Irc object.
 Stub driver: only recorded.  SocketDriver: disconnect bookkeeping, `irc.reset()`, then either schedule
 (wait) or connect immediately. -/
 def drvReconnect (cfg : Cfg) (wait : Bool) (server : Option Server) (s : St) : St :=
-  let s := event (.reconnect wait server) s
-  if !cfg.realDriver then s else
-  let s := { s with drv := { s.drv with attempt := s.drv.attempt + 1, scheduled := false } }
-  let s := if s.drv.connected then
-      event .closed { s with db := { s.db with lastDisc := dictSet s.db.lastDisc s.drv.current.host s.now },
-                             drv := { s.drv with connected := false } }
-    else s
-  let s := ircReset cfg s
-  if wait then
-    { s with drv := { s.drv with scheduled := true,
-                                 servers := match server with
-                                   | some srv => srv :: s.drv.servers
-                                   | none => s.drv.servers } }
-  else drvConnect cfg server s
+  if cfg.realDriver then realReconnect cfg wait server (event (.reconnect wait server) s)
+  else event (.reconnect wait server) s
 
 /-! ### CAP END, SASL -/
 
@@ -518,29 +528,27 @@ def do908 (args : List Str) (s : St) : R :=
 
 def lstripEqTilde (s : Str) : Str := s.dropWhile (fun c => c = '=' || c = '~')
 
+/-- is the connection secure in the sense of Irc._onCapSts -/
+def secureConn (cfg : Cfg) (s : St) : Bool := s.drv.current.forced || (cfg.ssl && cfg.certValidation)
+
 /-- Irc._onCapSts -/
 def onCapSts (cfg : Cfg) (policy : Str) (s : St) : St :=
-  let secure := s.drv.current.forced || (cfg.ssl && cfg.certValidation)
-  match parseStsPolicy policy secure with
+  match parseStsPolicy policy (secureConn cfg s) with
   | none => s
   | some p =>
-    if secure then { s with db := { s.db with policies := dictSet s.db.policies s.drv.current.host policy } }
-    else
-      let host := s.drv.current.host
-      let attempt := s.drv.current.attempt
-      let s := (onShutdown s).st
-      drvReconnect cfg true (some ⟨host, p.port, attempt, true⟩) s
+    if secureConn cfg s then { s with db := { s.db with policies := dictSet s.db.policies s.drv.current.host policy } }
+    else drvReconnect cfg true (some ⟨s.drv.current.host, p.port, s.drv.current.attempt, true⟩) (onShutdown s).st
+
+def setLs (k : Str) (v : Option Str) (s : St) : St := { s with ls := dictSet s.ls k v }
 
 /-- one iteration of the loop of Irc._addCapabilities -/
 def addCapability (cfg : Cfg) (s : St) (item0 : Str) : St :=
-  let item := lstripEqTilde item0
-  match split1 '=' item with
+  match split1 '=' (lstripEqTilde item0) with
   | some (cap, value) =>
-    let s := if cap = sSts then onCapSts cfg value s else s
-    { s with ls := dictSet s.ls cap (some value) }
+    if cap = sSts then setLs cap (some value) (onCapSts cfg value s) else setLs cap (some value) s
   | none =>
-    let s := if item = sSts then drvReconnect cfg true none s else s
-    { s with ls := dictSet s.ls item none }
+    if lstripEqTilde item0 = sSts then setLs (lstripEqTilde item0) none (drvReconnect cfg true none s)
+    else setLs (lstripEqTilde item0) none s
 
 /-- Irc._addCapabilities -/
 def addCapabilities (cfg : Cfg) (capstring : Str) (s : St) : St :=
@@ -613,16 +621,19 @@ def expandAlt (base : Str) : Str → Str
   | '%' :: 's' :: rest => base ++ rest
   | c :: rest => c :: expandAlt base rest
 
+/-- the tail of Irc._getNextNick: the configured nick if not tried yet, else random digits -/
+def nickFallback (cfg : Cfg) (s : St) : Option Str × St :=
+  if s.tried.contains cfg.nick then (none, s) else (some cfg.nick, { s with tried := s.tried ++ [cfg.nick] })
+
+def altNick (cfg : Cfg) (a : Str) : Str := if Py.contains sPctS a then expandAlt cfg.nick a else a
+
 /-- Irc._getNextNick: `some n` = a determined nick, `none` = the random-digit variation -/
 def getNextNick (cfg : Cfg) (s : St) : Option Str × St :=
-  let fallback (s : St) : Option Str × St :=
-    if s.tried.contains cfg.nick then (none, s) else (some cfg.nick, { s with tried := s.tried ++ [cfg.nick] })
   match s.altNicks with
   | a :: rest =>
-    let s := { s with altNicks := rest }
-    let n := if Py.contains sPctS a then expandAlt cfg.nick a else a
-    if s.tried.contains n then fallback s else (some n, { s with tried := s.tried ++ [n] })
-  | [] => fallback s
+    if s.tried.contains (altNick cfg a) then nickFallback cfg { s with altNicks := rest }
+    else (some (altNick cfg a), { s with altNicks := rest, tried := s.tried ++ [altNick cfg a] })
+  | [] => nickFallback cfg s
 
 /-- Irc.do43x -/
 def do43x (cfg : Cfg) (s : St) : R :=
@@ -750,11 +761,8 @@ def step (cfg : Cfg) (s : St) (m : Msg) : St × List Out × Option String :=
   let s' := r.st
   ({ s' with fastq := [], slowq := [], ev := [] }, s'.fastq ++ s'.slowq ++ s'.ev, r.exc)
 
-/-- `Irc(network)` with a fresh `IrcState`, driver not yet attached -/
+/-- `Irc(network)` with a fresh `IrcState`: the same start values as after a reset, epoch 0 -/
 def initSt (cfg : Cfg) (base : St) : St :=
-  let s : St := { base with fsm := Gen.Conn.fsmReset, ls := [], req := [], ack := [], nak := [],
-                             fastq := [], slowq := [], ev := [], epoch := 0, endCount := 0,
-                             nick := cfg.nick, altNicks := cfg.alternates, tried := [], afterConnect := false }
-  queueConnectMessages cfg (resetSasl cfg s)
+  queueConnectMessages cfg { clearForReset cfg base with ev := [], epoch := 0 }
 
 end C08
